@@ -330,10 +330,11 @@ def write_replay(pid, name, text):
     return p
 
 def write_evidence(pid, tier, seed, coverage, wall, violations, assumptions):
-    os.makedirs(os.path.join(VERIF, 'evidence'), exist_ok=True)
+    edir = os.environ.get('VERIF_EVIDENCE_DIR') or os.path.join(VERIF, 'evidence')   # seeded-change runs write elsewhere
+    os.makedirs(edir, exist_ok=True)
     ev = dict(property_id=pid, tier=tier, seed=seed, level='proof', coverage=coverage, wall_s=round(wall, 2),
               violations=violations, assumptions=assumptions)
-    json.dump(ev, open(os.path.join(VERIF, 'evidence', pid + '.json'), 'w'), indent=1)
+    json.dump(ev, open(os.path.join(edir, pid + '.json'), 'w'), indent=1)
 
 def count_theorems(prop_file):
     txt = open(os.path.join(VERIF, 'coq', prop_file + '.v')).read()
